@@ -497,3 +497,295 @@ Section Accept.
       + split; intros [r H]; discriminate.
   Qed.
 End Accept.
+
+(* ------------------------------------------------------------------ what the implementation receives *)
+Definition pfind (ps : sig) (k : name) : option param :=
+  find (fun p => negb (is_varkw p) && String.eqb (p_name p) k) ps.
+
+Lemma pfind_named ps k : named ps k = true <-> exists p, pfind ps k = Some p.
+Proof.
+  unfold named, pfind. induction ps as [|p t IH]; simpl.
+  - split; [discriminate|intros [p H]; discriminate].
+  - destruct (negb (is_varkw p) && String.eqb (p_name p) k); simpl.
+    + split; eauto.
+    + exact IH.
+Qed.
+
+Lemma pfind_name ps k p : pfind ps k = Some p -> p_name p = k /\ is_varkw p = false.
+Proof.
+  unfold pfind. intro H. apply find_some in H. destruct H as [_ H].
+  apply andb_true_iff in H. destruct H as [H1 H2]. apply negb_true_iff in H1. apply String.eqb_eq in H2. auto.
+Qed.
+
+Lemma pfind_app X Y k : pfind (X ++ Y) k = match pfind X k with Some p => Some p | None => pfind Y k end.
+Proof.
+  unfold pfind. induction X as [|p t IH]; simpl; auto.
+  destruct (negb (is_varkw p) && String.eqb (p_name p) k); auto.
+Qed.
+
+Lemma fill_vals_lookup ps a k :
+  fill_ok ps a = true ->
+  lookup k (fill_vals ps a) = match pfind ps k with Some p => value_of a p | None => None end.
+Proof.
+  unfold fill_ok, fill_vals, pfind. induction ps as [|p t IH]; simpl; auto.
+  intro H. apply andb_true_iff in H. destruct H as [Hp Ht].
+  destruct (is_varkw p) eqn:Ev; simpl; [now apply IH|].
+  simpl in Hp. destruct (value_of a p) as [v|] eqn:Eval; [|discriminate]. simpl.
+  destruct (String.eqb (p_name p) k); auto.
+Qed.
+
+Lemma bind_receives R c vals kwargs :
+  call_ok c -> bind R c = Ok (vals, kwargs) ->
+  forall k, lookup k (vals ++ kwargs) =
+    if named R k then
+      match supplied R c k with Some v => Some v | None => default_of R k end
+    else lookup k (c_kw c).
+Proof.
+  intros Hc Hb k. rewrite bind_closed in Hb by exact Hc.
+  destruct (bind_pos R (c_pos c)) as [a0|] eqn:Ep; [|discriminate].
+  destruct (kw_ok R a0 (c_kw c) && fill_ok R (a0 ++ kw_named R (c_kw c))) eqn:Eok; [|discriminate].
+  inversion Hb; subst; clear Hb. apply andb_true_iff in Eok. destruct Eok as [_ Hf].
+  rewrite lookup_app, (fill_vals_lookup _ _ _ Hf).
+  apply bind_pos_combine in Ep. subst a0.
+  destruct (named R k) eqn:En.
+  - apply pfind_named in En. destruct En as [p Hp]. rewrite Hp.
+    destruct (pfind_name _ _ _ Hp) as [Hname Hv].
+    assert (Hsome : exists v, value_of (combine (pos_names R) (c_pos c) ++ kw_named R (c_kw c)) p = Some v).
+    { unfold fill_ok in Hf. rewrite forallb_forall in Hf.
+      assert (In p R) as Hin by (unfold pfind in Hp; apply find_some in Hp; tauto).
+      specialize (Hf _ Hin). rewrite Hv in Hf. simpl in Hf.
+      destruct (value_of _ p) as [v|]; [eauto|discriminate]. }
+    destruct Hsome as [v0 Hv0]. rewrite Hv0. rewrite <- Hv0.
+    unfold value_of, supplied, default_of. fold (pfind R k). rewrite Hp, Hname, lookup_app.
+    destruct (lookup k (combine (pos_names R) (c_pos c))) as [v|]; auto.
+    unfold kw_named. rewrite lookup_filter_key.
+    + destruct (lookup k (c_kw c)); reflexivity.
+    + intro v. simpl. apply pfind_named. eauto.
+  - assert (pfind R k = None) as ->.
+    { destruct (pfind R k) eqn:Ef; auto.
+      assert (named R k = true) by (apply pfind_named; eauto). congruence. }
+    unfold kw_other. apply lookup_filter_key. intro v. simpl. rewrite En. reflexivity.
+Qed.
+
+Lemma wrapper_err b c e : call_ok c -> wrapper b c = Err e -> e = TypeErr.
+Proof.
+  intro Hc. unfold wrapper. destruct (bind (sig_real b) c) as [[vals kw]|e'] eqn:Eb.
+  - destruct (_ && _); [|discriminate]. intro H; inversion H; auto.
+  - intro H; inversion H; subst. eapply bind_err; eauto.
+Qed.
+
+Lemma filter_all {A} (f : A -> bool) l : forallb f l = true -> filter f l = l.
+Proof.
+  induction l as [|x t IH]; simpl; auto. intro H. apply andb_true_iff in H. destruct H as [Hx Ht].
+  rewrite Hx, IH; auto.
+Qed.
+
+Section Receive.
+  Variables (b : mb) (E V O : list param).
+  Hypothesis Hwf : wf b E V O.
+
+  Lemma explicit_shape : explicit b = E.
+  Proof.
+    destruct Hwf as (Ha & _ & HE & _). unfold explicit, sig_real. rewrite Ha.
+    rewrite filter_app.
+    rewrite (filter_all _ E HE).
+    destruct (V ++ O); simpl; rewrite app_nil_r; reflexivity.
+  Qed.
+
+  Lemma real_cases : sig_real b = E \/ sig_real b = E ++ [kwargs_param].
+  Proof.
+    destruct Hwf as (Ha & _). unfold sig_real. rewrite Ha. destruct (V ++ O); [left|right]; auto.
+    apply app_nil_r.
+  Qed.
+
+  Lemma named_real_E k : named (sig_real b) k = named E k.
+  Proof.
+    destruct real_cases as [->| ->]; auto. rewrite named_app. simpl. apply orb_false_r.
+  Qed.
+
+  Lemma pos_names_real_adv : pos_names (sig_real b) = pos_names (sig_advertised b).
+  Proof.
+    rewrite (adv_shape b E V O Hwf).
+    destruct Hwf as (Ha & _). unfold sig_real. rewrite Ha.
+    destruct (V ++ O) eqn:Evo.
+    - reflexivity.
+    - rewrite <- Evo. apply pos_names_prefix; simpl; auto. apply (stops_X b E V O Hwf).
+  Qed.
+
+  Lemma default_real_adv k : named E k = true -> default_of (sig_real b) k = default_of (sig_advertised b) k.
+  Proof.
+    intro Hn. apply pfind_named in Hn. destruct Hn as [p Hp].
+    unfold default_of. fold (pfind (sig_real b) k) (pfind (sig_advertised b) k).
+    rewrite (adv_shape b E V O Hwf), pfind_app, Hp.
+    destruct real_cases as [->| ->]; [|rewrite pfind_app]; rewrite Hp; reflexivity.
+  Qed.
+
+  (* ---- C17_values_reach_impl *)
+  Theorem values_reach_impl c recv :
+    call_ok c -> wrapper b c = Ok recv -> receives_exactly b c recv.
+  Proof.
+    intros Hc Hw k. unfold wrapper in Hw.
+    destruct (bind (sig_real b) c) as [[vals kwargs]|] eqn:Eb; [|discriminate].
+    destruct (_ && _); [discriminate|]. inversion Hw; subst; clear Hw.
+    rewrite (bind_receives _ _ _ _ Hc Eb k).
+    rewrite explicit_shape, named_real_E.
+    destruct (named E k) eqn:En; auto.
+    unfold supplied. rewrite pos_names_real_adv, (default_real_adv _ En). reflexivity.
+  Qed.
+
+  (* ---- C17_reject_before_effect *)
+  Theorem reject_before_effect {S : Type} (impl : list (name * Z) -> S -> S * res Z) c k s :
+    call_ok c -> In k (map fst (c_kw c)) ->
+    named (sig_advertised b) k = false -> has_varkw (sig_advertised b) = false ->
+    wrapper b c = Err TypeErr /\ invoke b impl c s = (s, Err TypeErr).
+  Proof.
+    intros Hc Hin Hn Hv.
+    assert (Hw : wrapper b c = Err TypeErr).
+    { destruct (wrapper b c) as [recv|e] eqn:Ew.
+      - exfalso. assert (accepts b c) as Ha by (eexists; eauto).
+        apply (accept_iff_advertised b E V O Hwf c Hc) in Ha. destruct Ha as [r Hb].
+        rewrite bind_closed in Hb by exact Hc.
+        destruct (bind_pos (sig_advertised b) (c_pos c)) as [a0|]; [|discriminate].
+        destruct (kw_ok (sig_advertised b) a0 (c_kw c)) eqn:Ek; [|discriminate].
+        unfold kw_ok in Ek. rewrite forallb_forall in Ek.
+        apply in_map_iff in Hin. destruct Hin as ([k' v] & Hk & Hin). simpl in Hk. subst k'.
+        specialize (Ek _ Hin). simpl in Ek. rewrite Hn, Hv in Ek. discriminate.
+      - f_equal. eapply wrapper_err; eauto. }
+    split; auto. unfold invoke. rewrite Hw. reflexivity.
+  Qed.
+End Receive.
+
+(* ------------------------------------------------------------------ built methods *)
+Lemma run_app p1 : forall b p2,
+  run b (p1 ++ p2) = match run b p1 with Ok b1 => run b1 p2 | Err e => Err e end.
+Proof.
+  induction p1 as [|o t IH]; intros b p2; simpl; auto.
+  destruct (step b o); auto.
+Qed.
+
+Definition is_oarg (o : op) : bool := match o with OArg _ _ VarKw => false | OArg _ _ _ => true | _ => false end.
+
+Lemma run_explicit prog : forall b E b',
+  wf b E [] [] -> forallb is_oarg prog = true -> run b prog = Ok b' -> exists E', wf b' E' [] [].
+Proof.
+  induction prog as [|o t IH]; intros b E b' Hw Hp; simpl.
+  - intro H. inversion H; subst. eauto.
+  - simpl in Hp. apply andb_true_iff in Hp. destruct Hp as [Ho Hp].
+    destruct o as [nm d k|n]; [|discriminate]. simpl.
+    destruct (with_arg b nm d k false) as [b1|] eqn:E1; [|disc].
+    assert (k <> VarKw) by (destruct k; simpl in Ho; congruence).
+    destruct (with_arg_explicit_wf _ _ _ _ _ _ _ _ Hw H E1) as (_ & _ & Hw1).
+    intro Hr. eapply IH; eauto.
+Qed.
+
+Definition takes_nested (m : mkind) : bool :=
+  match m with MTopReset | MReset | MElemWithout _ => false | _ => true end.
+
+Definition method_pre (m : mkind) : list op := filter is_oarg (method_prog m None).
+
+Lemma method_prog_shape m nested :
+  method_prog m nested = method_pre m ++ (if takes_nested m then [OSpecAttrs nested] else []).
+Proof.
+  destruct m as [[[k d]|]| | | | |s|s| |k s|k s|k s|k]; try destruct k; try destruct d; try destruct s; reflexivity.
+Qed.
+
+Lemma method_pre_oarg m : forallb is_oarg (method_pre m) = true.
+Proof.
+  unfold method_pre. induction (method_prog m None) as [|o t IH]; simpl; auto.
+  destruct (is_oarg o) eqn:Eo; simpl; auto. rewrite Eo. exact IH.
+Qed.
+
+Lemma op_ok_of_oarg l : forallb is_oarg l = true -> forallb op_ok l = true.
+Proof.
+  intro H. rewrite forallb_forall in *. intros o Hin. specialize (H _ Hin).
+  destruct o as [nm d k|n]; [destruct k|]; simpl in *; auto.
+Qed.
+
+(* every built method is a well-shaped builder state *)
+Theorem build_method_wf m nested b : build_method m nested = Ok b -> wf_mb b.
+Proof.
+  unfold build_method, build_prog. destruct (run mb_init (method_prog m nested)) as [b0|] eqn:Er; [|disc].
+  unfold build. destruct (_ && _); [|disc]. intro H. inversion H; subst.
+  eapply run_wf; eauto.
+  - exists [self_param], [], []. apply wf_init.
+  - rewrite method_prog_shape, forallb_app. rewrite (op_ok_of_oarg _ (method_pre_oarg m)).
+    destruct (takes_nested m); reflexivity.
+Qed.
+
+Lemma virtual_keywords_spec b0 E n b :
+  wf b0 E [] [] -> with_spec_attrs_for b0 (Some n) = Ok b ->
+  virtual_keywords b = init_enabled (map p_name (explicit b)) n /\
+  virtual_catch_all b = active_overflow n.
+Proof.
+  intros Hw0 Hs. pose proof (with_spec_attrs_wf _ _ _ _ _ Hw0 Hs) as Hw. simpl in Hw.
+  rewrite (explicit_shape _ _ _ _ Hw).
+  destruct Hw as (_ & Hv & _ & HV & _).
+  unfold virtual_keywords, virtual_catch_all. rewrite Hv, !filter_app.
+  assert (Hnames : all_names b0 = map p_name E).
+  { destruct Hw0 as (Ha & Hv0 & _). unfold all_names. rewrite Ha, Hv0. simpl. rewrite !app_nil_r. reflexivity. }
+  assert (Hf1 : filter (fun p => negb (is_varkw p)) (spec_virtuals b0 n) = spec_virtuals b0 n).
+  { apply filter_all. apply virt_ok_not_varkw. exact HV. }
+  assert (Hf2 : filter is_varkw (spec_virtuals b0 n) = []).
+  { pose proof (virt_ok_not_varkw _ HV) as Hnv. clear -Hnv.
+    induction (spec_virtuals b0 n) as [|p t IH]; simpl in *; auto.
+    apply andb_true_iff in Hnv. destruct Hnv as [Hp Ht]. apply negb_true_iff in Hp. rewrite Hp. auto. }
+  rewrite Hf1, Hf2. split.
+  - destruct (active_overflow n); simpl; rewrite app_nil_r;
+      unfold spec_virtuals, init_enabled; rewrite !map_map; simpl;
+      (erewrite filter_ext; [reflexivity|]); intro a; unfold eligible; rewrite Hnames; reflexivity.
+  - destruct (active_overflow n); reflexivity.
+Qed.
+
+(* ---- C17_nested_keywords_bijective *)
+Theorem nested_keywords_bijective m n b :
+  build_method m (Some n) = Ok b -> takes_nested m = true ->
+  (forall a, In a (virtual_keywords b) <->
+     exists x, In x (n_attrs n) /\ n_name x = a /\ n_init x = true /\
+               ~ In a (map p_name (explicit b)) /\ n_overflow n <> Some a) /\
+  virtual_catch_all b = active_overflow n /\
+  (NoDup (map n_name (n_attrs n)) -> NoDup (virtual_keywords b)).
+Proof.
+  unfold build_method, build_prog. rewrite method_prog_shape. intros H Ht. rewrite Ht in H.
+  rewrite run_app in H.
+  destruct (run mb_init (method_pre m)) as [b0|] eqn:Er; [|discriminate].
+  destruct (run_explicit _ _ _ _ wf_init (method_pre_oarg m) Er) as [E Hw0].
+  cbn [run step] in H. destruct (with_spec_attrs_for b0 (Some n)) as [b1|] eqn:Es; [|discriminate].
+  unfold build in H. destruct (_ && _); [|discriminate]. inversion H; subst b1; clear H.
+  destruct (virtual_keywords_spec _ _ _ _ Hw0 Es) as [Hk Hc]. rewrite Hk. split; [|split; auto].
+  - intro a. unfold init_enabled. rewrite in_map_iff. split.
+    + intros (x & Hx & Hin). apply filter_In in Hin. destruct Hin as [Hin Hf].
+      apply andb_true_iff in Hf. destruct Hf as [Hf Ho]. apply andb_true_iff in Hf. destruct Hf as [Hi Hm].
+      apply negb_true_iff in Hm. apply memb_false in Hm.
+      exists x. subst a. repeat split; auto.
+      destruct (n_overflow n) as [o|]; [|discriminate]. apply negb_true_iff in Ho.
+      apply String.eqb_neq in Ho. congruence.
+    + intros (x & Hin & Hx & Hi & Hm & Ho). exists x. split; auto. apply filter_In. split; auto.
+      rewrite Hi, Hx. apply memb_false in Hm. rewrite Hm. simpl.
+      destruct (n_overflow n) as [o|]; auto. apply negb_true_iff, String.eqb_neq. congruence.
+  - intro Hn. unfold init_enabled. clear -Hn.
+    induction (n_attrs n) as [|x t IH]; simpl in *; [constructor|].
+    inversion Hn; subst. destruct (_ && _); simpl; auto.
+    constructor; auto. intro Hin. apply H1. apply in_map_iff in Hin. destruct Hin as (y & Hy & Hin).
+    apply filter_In in Hin. apply in_map_iff. exists y. tauto.
+Qed.
+
+(* ------------------------------------------------------------------ statements for built methods *)
+Lemma build_prog_wf prog b : forallb op_ok prog = true -> build_prog prog = Ok b -> wf_mb b.
+Proof.
+  intros Hp. unfold build_prog. destruct (run mb_init prog) as [b0|] eqn:Er; [|disc].
+  unfold build. destruct (_ && _); [|disc]. intro H. inversion H; subst.
+  eapply run_wf; eauto. exists [self_param], [], []. apply wf_init.
+Qed.
+
+Theorem wf_accept_iff_advertised b c : wf_mb b -> call_ok c -> (accepts b c <-> binds (sig_advertised b) c).
+Proof. intros (E & V & O & Hw). eapply accept_iff_advertised; eauto. Qed.
+
+Theorem wf_values_reach_impl b c recv :
+  wf_mb b -> call_ok c -> wrapper b c = Ok recv -> receives_exactly b c recv.
+Proof. intros (E & V & O & Hw). eapply values_reach_impl; eauto. Qed.
+
+Theorem wf_reject_before_effect {S : Type} b (impl : list (name * Z) -> S -> S * res Z) c k s :
+  wf_mb b -> call_ok c -> In k (map fst (c_kw c)) ->
+  named (sig_advertised b) k = false -> has_varkw (sig_advertised b) = false ->
+  wrapper b c = Err TypeErr /\ invoke b impl c s = (s, Err TypeErr).
+Proof. intros (E & V & O & Hw). eapply reject_before_effect; eauto. Qed.
